@@ -28,19 +28,20 @@ def lookup (c : Cache) (d : Dir) : Option (List Nat) :=
   | (k, v) :: r => if k = d then some v else lookup r d
 
 /-- `norm_package('.'*level + rest, filename)` with `dir = dirname(filename)`, `level ≥ 1`;
-    `none` = ImportError('Not a package') -/
-def normPackage (pk : Dir → Bool) (c : Cache) (dir : Dir) (level : Nat) (rest : List Nat) :
+    `none` = ImportError('Not a package').  `cacheEmpty`: the code as it is caches the parts of a directory
+    even when there are none (a1df565); before, only a non-empty result was kept. -/
+def normPackage (pk : Dir → Bool) (cacheEmpty : Bool) (c : Cache) (dir : Dir) (level : Nat) (rest : List Nat) :
     Option (List Nat) × Cache :=
   let root := dropLastN (level - 1) dir
   match lookup c root with
-  | some ps => (some (ps ++ rest), c)
+  | some ps => (if ps.isEmpty then none else some (ps ++ rest), c)
   | none =>
-    match parts pk (root.length + 1) root with
-    | [] => (none, c)
-    | ps => (some (ps ++ rest), (root, ps) :: c)
+    let ps := parts pk (root.length + 1) root
+    (if ps.isEmpty then none else some (ps ++ rest),
+     if ps.isEmpty && !cacheEmpty then c else (root, ps) :: c)
 
 /-- the answer of a project that has never normalised anything -/
 def freshNorm (pk : Dir → Bool) (dir : Dir) (level : Nat) (rest : List Nat) : Option (List Nat) :=
-  (normPackage pk [] dir level rest).1
+  (normPackage pk true [] dir level rest).1
 
 end SuppModel.Proj.Norm
